@@ -32,7 +32,9 @@ KIB8 = 8192
 RULE = (
     "one run = (input text, delivery schedule, build); the echo script calls read_line pieces+3 times and prints "
     "length and content of every result; stdout must equal the rendering of text.split('\\n') followed by empty "
-    "strings. Non-trivial = some write carries a newline followed by at least one more byte (two lines in one "
+    "strings; in a fifth of the runs some calls discard their result (a declaration nobody reads, or a bare call "
+    "statement) and must still consume their line: their records are simply absent from the expected output. "
+    "Non-trivial = some write carries a newline followed by at least one more byte (two lines in one "
     "write/read), or a write boundary falls strictly inside a line, or a line is longer than 8192 bytes; "
     "distinct = hash of (delivery mode, write sizes, text bytes)"
 )
@@ -43,6 +45,7 @@ ASSUMPTIONS = [
     "how the kernel splits the text across read(2) calls is influenced (write sizes, 1-5 ms pauses, first write either immediately or after the script printed its ready marker), not controlled; the sizes actually returned by read(0, ..) are measured with strace on a subset of runs and reported as evidence, they do not enter the verdict",
     "pty runs: canonical mode, echo and all special characters except EOF disabled, printable text with lines < 4000 bytes; end of input is signalled by EOT at line start; a pty mismatch is re-checked with a reference reader on the same schedule and counted as inconclusive when the reference reader does not see the text either",
     "a watchdog of 60 s per run turns a hang into an inconclusive case",
+    "runs whose script discards results provoke 'unused' warnings, which the interpreter prints on stdout before the program starts: everything before the ready-marker line is ignored in those runs",
 ]
 
 FIXED_CHUNKS = [1, 2, 7, 4095, 4096, 8191, 8192, 8193]
@@ -290,7 +293,12 @@ def gen_case(seed, idx, tier, builds):
     case["data"] = data
     case["chunks"] = chunks
     case["profile"] = prof
-    case["script"] = "loop" if rng.random() < 0.7 else "straight"
+    x = rng.random()
+    case["script"] = "loop" if x < 0.6 else ("straight" if x < 0.8 else "skip")
+    # style skip: some calls throw their result away (a header line that is read only to get past it);
+    # such a call still consumes its line
+    nlines = len(text.split("\n")) + EXTRA_CALLS
+    case["skips"] = sorted(i for i in range(nlines) if rng.random() < 0.3) if case["script"] == "skip" else []
     case["pause_ms"] = [rng.randint(1, 5) for _ in range(8)]
     return case
 
@@ -326,7 +334,7 @@ def schedule_facts(data, chunks):
 READY = b"R\n"
 
 
-def echo_script(k, style):
+def echo_script(k, style, skips=None):
     """Prints a ready marker, then for each of k calls the length and the content of the result."""
     if style == "loop":
         return (
@@ -340,21 +348,30 @@ def echo_script(k, style):
             "end\n"
         )
     parts = ["shout(\"R\")\n"]
+    skips = set(skips or ())
     for i in range(k):
-        parts.append(f"make l{i} get read_line(\"\")\nshout(l{i}.len())\nshout(l{i})\n")
+        if i in skips:
+            # the result is never looked at: a declaration nobody reads, or a bare call
+            parts.append(f"make h{i} get read_line(\"\")\n" if i % 2 == 0 else "read_line(\"\")\n")
+        else:
+            parts.append(f"make l{i} get read_line(\"\")\nshout(l{i}.len())\nshout(l{i})\n")
     return "".join(parts)
 
 
-def expected_stdout(text, k):
+def _pieces(text, k, skips):
     pieces = text.split("\n")
     pieces = pieces + [""] * (k - len(pieces))
-    return READY + "".join(f"{len(p)}\n{p}\n" for p in pieces).encode()
+    skips = set(skips or ())
+    return [p for i, p in enumerate(pieces) if i not in skips]
 
 
-def first_difference(text, k, got):
-    """Describes the first call whose record differs (best effort; content cannot contain LF)."""
-    pieces = text.split("\n")
-    pieces = pieces + [""] * (k - len(pieces))
+def expected_stdout(text, k, skips=None):
+    return READY + "".join(f"{len(p)}\n{p}\n" for p in _pieces(text, k, skips)).encode()
+
+
+def first_difference(text, k, got, skips=None):
+    """Describes the first printed record that differs (best effort; content cannot contain LF)."""
+    pieces = _pieces(text, k, skips)
     try:
         s = got.decode("utf-8")
     except UnicodeDecodeError:
@@ -583,6 +600,15 @@ def mode_class(mode):
     return "chunked"
 
 
+def program_output(stdout):
+    """Static-analysis warnings (the skip style provokes 'unused' warnings on purpose) are printed on
+    stdout before the program starts; the program's own output begins with the ready marker line."""
+    if stdout.startswith(READY):
+        return stdout
+    k = stdout.find(b"\n" + READY)
+    return stdout[k + 1:] if k >= 0 else stdout
+
+
 def run_case(case, bins, workroot, use_strace):
     t0 = time.time()
     text = case["text"]
@@ -590,20 +616,24 @@ def run_case(case, bins, workroot, use_strace):
     workdir = tempfile.mkdtemp(prefix=f"c17-{case['idx']}-", dir=workroot)
     script_path = os.path.join(workdir, "echo.ns")
     with open(script_path, "w") as f:
-        f.write(echo_script(k, case["script"]))
+        f.write(echo_script(k, case["script"], case.get("skips")))
     argv = [bins[case["build"]], script_path]
     strace_log = None
     if use_strace:
         strace_log = os.path.join(workdir, "strace.log")
         argv = [STRACE, "-f", "-e", "trace=read", "-o", strace_log] + argv
     r = run_child(argv, case, k, workdir, "run")
+    if case.get("skips"):
+        r["stdout"] = program_output(r["stdout"])
     out = {"idx": case["idx"], "case": case, "k": k, "failure": None, "inconclusive": None, "reads": None}
     if strace_log:
         out["reads"] = parse_strace(strace_log)
-    exp = expected_stdout(text, k)
+    exp = expected_stdout(text, k, case.get("skips"))
     if use_strace and (r["timed_out"] or r["rc"] != 0 or r["stdout"] != exp):
         # never blame the interpreter for something only seen under the tracer: the verdict comes from a plain run
         plain = run_child(argv[6:], case, k, workdir, "plain")
+        if case.get("skips"):
+            plain["stdout"] = program_output(plain["stdout"])
         if not plain["timed_out"] and plain["rc"] == 0 and plain["stdout"] == exp:
             out["inconclusive"] = {"idx": case["idx"], "why": "strace: run differs under the tracer only", "detail": {
                 "mode": case["mode"], "build": case["build"], "rc_under_strace": r["rc"], "timed_out": r["timed_out"]}}
@@ -614,7 +644,7 @@ def run_case(case, bins, workroot, use_strace):
         use_strace = False
     mc = mode_class(case["mode"])
     replay = {
-        "module": "vlib.p_c17", "idx": case["idx"], "mode": case["mode"], "build": case["build"], "script": case["script"],
+        "module": "vlib.p_c17", "idx": case["idx"], "mode": case["mode"], "build": case["build"], "script": case["script"], "calls_whose_result_is_discarded": case.get("skips", [])[:40],
         "profile": case["profile"], "calls": k, "write_sizes_head": case["chunks"][:40], "writes": len(case["chunks"]),
         "pause": case["pause"], "wait_for_ready_marker": case["handshake"], "strace": bool(use_strace),
         "text_bytes": len(case["data"]), "line_bytes_head": [len(x) for x in case["data"].split(b"\n")][:45],
@@ -627,7 +657,7 @@ def run_case(case, bins, workroot, use_strace):
     elif r["rc"] < 0:
         out["failure"] = {"idx": case["idx"], "sig": f"crash|signal {-r['rc']}", "build": case["build"], "replay": replay,
                           "detail": {"mode": case["mode"], "stderr": r["stderr"][-600:].decode("utf-8", "replace"),
-                                     "first_difference": first_difference(text, k, r["stdout"])}}
+                                     "first_difference": first_difference(text, k, r["stdout"], case.get("skips"))}}
     elif r["rc"] != 0:
         # under strace a killed tracee is reported as exit 128+N by some versions: keep it a plain bad exit
         out["failure"] = {"idx": case["idx"], "sig": f"bad-exit|{mc}", "build": case["build"], "replay": replay,
@@ -638,7 +668,7 @@ def run_case(case, bins, workroot, use_strace):
             out["inconclusive"] = {"idx": case["idx"], "why": "pty: reference reader did not receive the text either", "detail": {"build": case["build"]}}
         else:
             out["failure"] = {"idx": case["idx"], "sig": f"line-mismatch|{mc}", "build": case["build"], "replay": replay,
-                              "detail": {"mode": case["mode"], "first_difference": first_difference(text, k, r["stdout"]),
+                              "detail": {"mode": case["mode"], "first_difference": first_difference(text, k, r["stdout"], case.get("skips")),
                                          "expected_bytes": len(exp), "got_bytes": len(r["stdout"])}}
     if out["failure"] is not None:
         keep = os.path.join(common.REPLAYS, PROP)
